@@ -26,6 +26,7 @@ META = {
 }
 
 LOSSES = ["refused", "reject", "eof", "reset", "pingtimeout"]
+TLS_LOSSES = ["ssl-eof"]
 CUT_LOSSES = ["eof-mid-frame", "eof-mid-message", "reset-mid-message"]
 HORIZON = 600.0
 
@@ -49,7 +50,11 @@ def build_plan(seq, final, rng):
                 s = f"c{i}m{m}"
                 script.append((0.2 + 0.2 * m, "frames", text(s)))
                 msgs_expected.append((i, s))
-            if k in CUT_LOSSES:
+            if k == "ssl-eof":
+                import ssl as _ssl
+                script.append((0.7, "error", _ssl.SSLEOFError(8, "EOF occurred in violation of protocol (_ssl.c:2427)")))
+                plan.append(dict(outcome="ok", script=script, pong=0.05))
+            elif k in CUT_LOSSES:
                 # the connection is lost in the middle of a frame / of a fragmented message: nothing of it may be
                 # delivered, and nothing of it may leak into the next connection
                 if k == "eof-mid-frame":
@@ -100,6 +105,14 @@ def run(res, tier, seed, shard, nshards):
             for final in ("server-close", "own-close"):
                 for disp in (None, "rel"):
                     jobs.append(("seq", seq, final, 1, disp))
+    # TLS transport: a ragged end of stream (no close_notify) surfaces as SSLEOFError from the read
+    for seq in (("ssl-eof",), ("ssl-eof", "ssl-eof"), ("refused", "ssl-eof"), ("ssl-eof", "eof")):
+        for final in ("server-close", "own-close"):
+            for disp in (None, "rel"):
+                jobs.append(("seq", seq, final, 1, disp))
+    # a long outage: hundreds of failed attempts in one run, then service comes back
+    for disp in (None, "rel"):
+        jobs.append(("outage", 450 if quick else 1500, disp))
     # a server close frame with an undecodable reason (validation off) is still a close frame: no reconnect
     for disp in (None, "rel"):
         for seq in ((), ("eof",), ("refused", "reset")):
@@ -115,17 +128,19 @@ def run(res, tier, seed, shard, nshards):
             continue
         if job[0] == "seq":
             seq_case(res, W, rng, *job[1:], ji=ji)
+        elif job[0] == "outage":
+            outage_case(res, W, job[1], job[2])
         else:
             close_in_sleep_case(res, W, rng, *job[1:])
 
 
-def execute(plan, run_kwargs, hooks, disp, enabled, closer=None):
+def execute(plan, run_kwargs, hooks, disp, enabled, closer=None, url="ws://app.test/"):
     out = {}
 
     def scen():
         S = sched.CURRENT
         H.reset_process_state()
-        run = appsim.AppRun(plan, hooks=hooks, callbacks=enabled, last_repeats=False)
+        run = appsim.AppRun(plan, hooks=hooks, callbacks=enabled, last_repeats=False, url=url)
         out["run"] = run
         run.build()
         if closer is not None:
@@ -174,7 +189,8 @@ def seq_case(res, W, rng, seq, final, interval, disp, ji=0):
         run_kwargs.update(ping_interval=2, ping_timeout=1)
     elif ji % 3 == 0:
         run_kwargs.update(ping_interval=2, ping_timeout=1)  # healthy keepalive during reconnections
-    run, out, failure, S = execute(plan, run_kwargs, hooks, disp, enabled)
+    url = "wss://app.test/" if any(k in TLS_LOSSES for k in seq) else "ws://app.test/"
+    run, out, failure, S = execute(plan, run_kwargs, hooks, disp, enabled, url=url)
     case = {"sequence": seq, "final": final, "interval": interval, "dispatcher": disp or "builtin", "on_reconnect": with_reconnect_cb,
             "ping": "ping_interval" in run_kwargs}
     res.case((seq, final, interval, disp, with_reconnect_cb), nontrivial=len(seq) >= 1)
@@ -219,7 +235,7 @@ def seq_case(res, W, rng, seq, final, interval, disp, ji=0):
         t_attempt = attempts[k][0]
         if prev in ("refused", "reject"):
             loss = attempts[k - 1][0]
-        elif prev in ("eof", "reset") or prev in CUT_LOSSES:
+        elif prev in ("eof", "reset") or prev in CUT_LOSSES or prev in TLS_LOSSES:
             loss = servers[k - 1].lost_at
         else:
             loss = None  # ping timeout: detection time is C16's matter
@@ -324,3 +340,65 @@ def close_in_sleep_case(res, W, rng, first, interval, disp, frac):
         bad("message-after-own-close", "a message of a connection made after close() was delivered")
     if run.open_transports():
         bad("transport-left-open", f"{len(run.open_transports())} transports open at the end")
+
+
+def outage_case(res, W, n_failures, disp):
+    """service is down for a long time (every attempt refused), then comes back: the client must still be trying"""
+    plan = [dict(outcome="ok", script=[(0.2, "frames", text("before")), (0.5, "eof")])] + [dict(outcome="refused")] * n_failures
+    plan.append(dict(outcome="ok", script=[(0.2, "frames", text("back")), (0.6, "close", b"\x03\xe8done")]))
+    enabled = ["on_open", "on_message", "on_error", "on_close", "on_reconnect"]
+    old_h = HORIZON
+    out = {}
+
+    def scen():
+        H.reset_process_state()
+        run = appsim.AppRun(plan, callbacks=enabled, last_repeats=False)
+        out["run"] = run
+        kw = dict(reconnect=0.5)
+        rel = None
+        if disp == "rel":
+            rel = appsim.SimRel()
+            kw["dispatcher"] = rel
+        run.run_forever(**kw)
+        if rel is not None:
+            try:
+                rel.dispatch(horizon=n_failures + 100)
+            except sched.SimAbort:
+                raise
+            except BaseException as e:  # noqa
+                run.dispatch_exc = e
+    S = sched.Sched(horizon=n_failures + 200, watchdog=120)
+    failure = None
+    try:
+        S.run(scen)
+    except sched.SimFailure as e:
+        failure = e
+    run = out.get("run")
+    res.case(("outage", n_failures, disp), nontrivial=True)
+    res.count("outage_runs")
+    res.count("runs_with_reconnect")
+    case = {"scenario": "long-outage", "failed_attempts": n_failures, "dispatcher": disp or "builtin"}
+
+    def bad(kind, detail, **kw):
+        res.violation(kind, f"outage of {n_failures} refused attempts ({disp or 'builtin'}): {detail}", case, dispatcher=disp or "builtin", final="server-close", **kw)
+    if run is None:
+        res.inconc(f"outage case setup: {failure}")
+        return
+    if getattr(run, "dispatch_exc", None) is not None:
+        bad("exception-escaped-into-dispatcher", f"{type(run.dispatch_exc).__name__}: {str(run.dispatch_exc)[:100]}", exc_type=type(run.dispatch_exc).__name__)
+        return
+    if failure is not None and not isinstance(failure, sched.WatchdogExpired):
+        bad("no-return", f"{type(failure).__name__}: {str(failure)[:160]}", how=type(failure).__name__)
+        return
+    if isinstance(failure, sched.WatchdogExpired):
+        res.inconc("watchdog in outage case")
+        return
+    res.count("reconnect_attempts_checked", len(run.attempts))
+    if len(run.attempts) != len(plan):
+        bad("reconnect-missing", f"{len(run.attempts)} of {len(plan)} attempts were made; the last at t={run.attempts[-1][0] if run.attempts else None}", after="refused",
+            attempts=len(run.attempts))
+        return
+    msgs = [a[0] for (t, n, a, ci, ac) in run.trace if n == "on_message"]
+    names = [n for (t, n, a, ci, ac) in run.trace]
+    if msgs != ["before", "back"] or names.count("on_reconnect") != 1 or names.count("on_close") != 1 or names[-1] != "on_close":
+        bad("messages-after-reconnect", f"messages {msgs}, callbacks {names[-6:]}")
